@@ -1,6 +1,6 @@
 """C04 - non-determinism and conflicts are reported, never silently resolved (DESIGN.md section 4, C04)."""
 from sim import ref
-from sim.chart import Cfg, swarm, gen_spec
+from sim.chart import Tr, Cfg, swarm, gen_spec
 from sim.engine import Result, Abandon, fp
 from sim.semrun import Sim, standard_ops, legal_or_abandon, materialise
 from sim.checks import common
@@ -10,7 +10,7 @@ LEVEL = 'exploration'
 BUDGET = {'quick': 20, 'thorough': 240}
 STREAM_ORDER = ['ops', 'guards', 'mat', 'chart', 'cfg']
 RULE = (common.GEN + 'guard outcomes and chart shapes are biased towards >= 2 transitions firing at once (same source under compound / '
-        'orthogonal parents and on the root, sibling regions with targets inside / outside the region; in half of the runs some guard texts contain braces, which end up in the error message); the exception class of every '
+        'orthogonal parents and on the root, sibling regions with targets inside / outside the region; in half of the runs some guard texts contain braces, which end up in the error message; a quarter of the charts hold an exact duplicate of one transition - a second object that compares equal - which is selected whenever the original is); the exception class of every '
         'step is compared with reference step 6, and after an error nothing may have changed; non-trivial = a step in which the '
         'reference selects >= 2 transitions; distinct = distinct (chart, configuration, event, selected set)')
 COMPONENTS = {'real': common.REAL, 'stub': common.STUB}
@@ -25,6 +25,16 @@ def run(ch, tier):
     res = Result()
     cfg = swarm(ch.s('cfg'), Cfg(pair_bias=5, bump=True, brace=ch.s('cfg').flag(1, 2)), tier)
     sp = gen_spec(ch.s('chart'), cfg)
+    if sp.trans and ch.s('cfg').flag(1, 4):
+        # an exact duplicate of one transition (same source, target, event, guard, action, priority - a second object that
+        # compares equal): whenever the original is selected so is its twin, and two transitions of one state are an error
+        o = ch.s('chart').pick(sp.trans)
+        d = Tr(len(sp.trans), o.src, o.tgt, o.event, o.prio, o.guard)
+        for k in Tr.__slots__:
+            if k != 'i':
+                setattr(d, k, getattr(o, k))
+        sp.trans.append(d)
+        res.stats['charts_with_an_exact_duplicate_transition'] += 1
     sim = Sim(sp, statechart=materialise(sp, ch, res))
     cfp = fp(sp.fingerprint())
     for r in standard_ops(sim, ch, tier, single_pending=True, advance=False, p_true=(6, 8)):
